@@ -14,7 +14,8 @@ PROP = "C13"
 def run(tier):
     res = Result(PROP, tier, "proof")
     st = standard_build(res, PROP, group="c13", harness_bin="c13",
-                        model_deps=["theories/Model/SyllableViews.vo", "theories/Model/SyllableSearch.vo"])
+                        model_deps=["theories/Model/SyllableViews.vo", "theories/Model/SyllableSearch.vo"],
+                        tablegen_groups=("bopomofo",))
     work = os.path.join(BUILD, "work", "%s-%s" % (PROP, tier))
     os.makedirs(work, exist_ok=True)
     impl, model, orc = (os.path.join(work, x) for x in ("views.impl", "views.model", "oracle.json"))
